@@ -50,6 +50,8 @@ def make_device(kind, devtype, qual):
     if kind == "plain":
         def responder(dev, cmd, rec):
             st_, sense = tgt.handle(cmd.cdb, cmd.dataout, cmd.datain)
+            if st_ != 0:
+                raise RuntimeError("device object reports status %02Xh" % st_)
         d = devs.RecDevice(devtype, responder=responder, qualifier=qual)
     elif kind == "sgio":
         d = transports.make_sgio(transports.node_path("c16-%d" % (_N[0] % 64)), handler=tgt.handle)
@@ -117,6 +119,9 @@ def sequence(draw):
         steps.append(("attach", draw(types), draw(st.one_of(st.just(0), st.integers(0, 7))), draw(st.sampled_from(KINDS))))
         for _ in range(draw(st.integers(0, 2))):
             steps.append(("cmd", draw(st.sampled_from(sorted(CMDS)))))
+        if draw(st.integers(0, 3)) == 0:
+            steps.append(("reattach_same_failing", draw(st.sampled_from([0x02, 0x08, 0x18]))))
+            steps.append(("cmd", draw(st.sampled_from(sorted(CMDS)))))
     return steps
 
 
@@ -159,6 +164,25 @@ def check_sequence(steps):
                     nt = True
                 history.append([dev, tgt, devtype, dev.opcodes, len(tgt.log), kind])
                 cur = (dev, tgt, devtype, setname)
+            elif step[0] == "reattach_same_failing":
+                # probing the current device again fails (CHECK CONDITION / BUSY / RESERVATION CONFLICT on the
+                # INQUIRY): the error surfaces and the selection made earlier is still in force
+                dev, tgt, devtype, setname = cur
+                from pbt.stdspec import responses as R_
+
+                ops_before = dev.opcodes
+                tgt.inject.append((step[1], bytes(R_.sense_fixed(6, 0x29, 0)) if step[1] == 2 else None))
+                try:
+                    s(dev)
+                    failed = False
+                except Exception:  # noqa
+                    failed = True
+                if history and history[-1][5] == "sgio" and step[1] != 2:
+                    failed = True  # (the SG_IO stand-in reports every non-CHECK-CONDITION failure the same way)
+                expect(failed, "mismatch:failed_probe_not_reported", status=step[1])
+                expect(dev.opcodes is ops_before, "mismatch:failed_reattach_changed_the_command_set", devtype=devtype,
+                       got=[k for k, v in tables().items() if v is dev.opcodes])
+                history[-1][4] = len(tgt.log)
             else:
                 name = step[1]
                 dev, tgt, devtype, setname = cur
@@ -196,7 +220,8 @@ def check_sequence(steps):
                     pass
         transports.clear_routes()
     kinds = sorted({st_[3] for st_ in steps if st_[0] == "attach"})
-    return nt, ["seq_" + k for k in kinds] + (["reattach"] if len(history) > 1 else [])
+    return nt, ["seq_" + k for k in kinds] + (["reattach"] if len(history) > 1 else []) + (
+        ["failed_reattach"] if any(st_[0] == "reattach_same_failing" for st_ in steps) else [])
 
 
 def run(ctx):
